@@ -38,6 +38,10 @@ def build(spec):
     good_units = {"P": u.yr if alt else u.day, "e": u.one, "omega": u.deg if alt else u.rad, "M0": u.deg if alt else u.rad,
                   "s": u.m / u.s if alt else u.km / u.s, "K": u.m / u.s if alt else u.km / u.s}
     bad_units = {"P": u.km / u.s, "e": u.day, "omega": u.day, "M0": u.km, "s": u.day, "K": u.day}
+    if spec.get("subtle"):
+        # units that differ from a valid one only by an angle factor / dimensionless-vs-radian confusion
+        bad_units = {"P": u.day * u.rad, "e": u.rad, "omega": u.one, "M0": u.one, "s": u.km / u.s * u.rad,
+                     "K": u.km / u.s / u.rad}
     for i in range(poly):
         good_units["v%d" % i] = (u.m / u.s if alt else u.km / u.s) / u.day ** i
         bad_units["v%d" % i] = u.km / u.s / u.day ** (i + 1)
@@ -172,6 +176,8 @@ def run(ctx):
                 attempt(dict(base, nounit={nm}), False, "missing-unit", nm)
                 if nm != "e":
                     attempt(dict(base, badunit={nm}), False, "inconvertible-unit", nm)
+                if nm in ("P", "e", "omega", "M0", "s", "K"):
+                    attempt(dict(base, badunit={nm}, subtle=True), False, "angle-confused-unit", nm)
             for k in range(1, noff + 1):
                 attempt(dict(base, nounit={"dv0_%d" % k}), False, "missing-unit", "dv0_%d" % k)
                 attempt(dict(base, badunit={"dv0_%d" % k}), False, "inconvertible-unit", "dv0_%d" % k)
